@@ -234,6 +234,20 @@ def do_action(mc, md, drv, act):
         mc.copy(src, mc if grp == "/" else mc[grp], name=name)
         md.cp(src, dst)
         return mc, None
+    if kind == "cp_root":  # copy of the root into a new group below itself
+        dst = act[1]
+        if dst in md.tree:
+            return mc, None
+        snap_tree, snap_val, snap_meta = dict(md.tree), dict(md.val), {k: dict(v) for k, v in md.meta.items()}
+        mc.copy("/", dst)
+        md.tree[dst] = "g"
+        for q, k in snap_tree.items():
+            md.tree[dst + "/" + q] = k
+            if q in snap_val:
+                md.val[dst + "/" + q] = snap_val[q]
+            if snap_meta.get(q):
+                md.meta[dst + "/" + q] = dict(snap_meta[q])
+        return mc, None
     if kind == "cp_src_obj":  # source given as a node object
         src, dst = act[1], act[2]
         if src not in md.tree or dst in md.tree:
@@ -426,6 +440,17 @@ def check_toc(mc, md):
         return ("package records present/absent wrongly", bool(used))
     if M.METADOR_PACKAGES_PATH in nodes and len(nodes[M.METADOR_PACKAGES_PATH].keys()) != 1:
         return ("unexpected package records", list(nodes[M.METADOR_PACKAGES_PATH].keys()))
+    # every bookkeeping entity is where it belongs: the one TOC at the root, metadata directories next to an
+    # existing user node (no stale copies anywhere else in the file)
+    for p in nodes:
+        if not M.is_internal_path(p) or p == M.METADOR_TOC_PATH or p.startswith(M.METADOR_TOC_PATH + "/"):
+            continue
+        segs = p.split("/")
+        i = next(j for j, x in enumerate(segs) if x.startswith("metador_"))
+        base = "/".join(segs[:i + 1])
+        owner = M.to_data_node_path(base).lstrip("/") if M.is_meta_base_path(base) else None
+        if owner is None or (owner != "" and owner not in md.tree):
+            return ("stray bookkeeping entity", p)
     for p, n in nodes.items():  # no empty bookkeeping groups
         if isgrp(n) and M.is_internal_path(p) and p != M.METADOR_TOC_PATH and len(n.keys()) == 0:
             return ("empty bookkeeping group left behind", p)
